@@ -236,3 +236,31 @@ func (OracleC08) failure(x *Exec, op *Op, pre *Snap, msg string) {
 	}
 	x.Fail("C08", "total", "slash callback for validator %d with fraction %s failed: %s", op.V, fs, msg)
 }
+
+// Relabel runs another property's oracle as a sub-check of this property: C08 demands
+// that after the callback the C06/C07 effects are complete.
+type Relabel struct {
+	Inner Oracle
+	Prop  string
+	Pref  string
+}
+
+func (r Relabel) Name() string { return r.Prop + "/" + r.Inner.Name() }
+func (r Relabel) guard(f func()) {
+	defer func() {
+		if p := recover(); p != nil {
+			if vp, ok := p.(violationPanic); ok {
+				vp.v.Oracle = r.Pref + vp.v.Property + "/" + vp.v.Oracle
+				vp.v.Property = r.Prop
+				panic(vp)
+			}
+			panic(p)
+		}
+	}()
+	f()
+}
+func (r Relabel) Before(x *Exec, op *Op) { r.guard(func() { r.Inner.Before(x, op) }) }
+func (r Relabel) After(x *Exec, op *Op, res *Res) {
+	r.guard(func() { r.Inner.After(x, op, res) })
+}
+func (r Relabel) End(x *Exec) { r.guard(func() { r.Inner.End(x) }) }
